@@ -55,7 +55,7 @@ def main():
         out["checks"] = {}
         for p in props:
             t0 = time.time()
-            r = sh(f"XSDATA_SRC={wt} {VERIF}/bin/check {p} --tier {tier} --no-evidence", cwd=VERIF, timeout=7200)
+            r = sh(f"XSDATA_SRC={wt} {VERIF}/bin/check {p} --tier {tier} --no-evidence --fail-fast", cwd=VERIF, timeout=7200)
             viol = [ln for ln in r.stdout.splitlines() if ln.startswith("VIOLATION")]
             cex = [ln.strip()[:300] for ln in r.stdout.splitlines() if ln.strip().startswith("counterexample:")]
             herr = [ln[:300] for ln in r.stdout.splitlines() if ln.startswith("HARNESS-ERROR")]
